@@ -43,10 +43,10 @@ PROPS["C16"] = {
 }
 
 PROPS["C15"] = {
-    "level_text": "Theorems on the model of GetConfig/configKeyMatchesPrefix: every listing git can print (valueless keys, empty/multi-line values, any non-NUL bytes) is read back exactly and in order; prefix matching is the component-boundary relation; configKeyMatchesPrefix and the record loop of GetConfig are REGENERATED from git/gitconfig.go (tools/gostr2lean: checked slices, fuelled loop) and proved to be the model on every input (never a panic, an error exactly for a listing without final NUL); correspondence on raw listings (through the real GetConfig with a fake git) and on real config files in global/local/command scopes with the real `git config --list -z` as reference.",
+    "level_text": "Theorems on the model of GetConfig/configKeyMatchesPrefix: every listing git can print (valueless keys, empty/multi-line values, any non-NUL bytes) is read back exactly and in order; prefix matching is the component-boundary relation; configKeyMatchesPrefix and the record loop of GetConfig are REGENERATED from git/gitconfig.go (tools/gostr2lean: checked slices, fuelled loop) and proved to be the model on every input (never a panic, an error exactly for a listing without final NUL); correspondence on raw listings (through the real GetConfig with a fake git) and on real config files in global/local/command scopes with the real `git config --list -z` as reference. `Pins.Group.augment_keys` (REGENERATED statements of refGroup.augmentFromConfig): the five recognised keys, combined in listing order, read through GetConfig(\"refgroup.<symbol>.\").",
     "level_note": "Trusted: Lean kernel; the form of git's listing (contract config_list_z, validated against real git 2.39.5 on every generated config); the hand-written model is tied to git/gitconfig.go by differential testing.",
     "technique": "Lean 4 proof on the listing-parser model + differential correspondence",
-    "modules": ["GitSizer.Props.C15"],
+    "modules": ["GitSizer.Props.C15", "GitSizer.Props.Pins.Group"],
     "engines": [{"name": "config", "quick": 12000, "thorough": 1200000, "per_shard": 3000},
                 {"name": "confige2e", "quick": 240, "thorough": 12000, "per_shard": 30},
                 {"name": "refs", "quick": 6000, "thorough": 600000, "per_shard": 3000}],
@@ -55,19 +55,19 @@ PROPS["C15"] = {
 }
 
 PROPS["C06"] = {
-    "level_text": "Theorems: the Combine fold equals last-matching-rule semantics for EVERY option list / pattern semantics / name; prefix matching is the '/'-boundary relation — proved also of prefixFilter.Filter as REGENERATED from git/ref_filter.go (checked index expression, short-circuit; never panics); @REFGROUP is group membership; the regenerated option table pairs --X/--no-X with the documented patterns. Correspondence: real RefGroupBuilder + pflag parsing + Finish + Categorize in-process vs model vs spec on generated configs x option sequences x reference sets.",
+    "level_text": "Theorems: the Combine fold equals last-matching-rule semantics for EVERY option list / pattern semantics / name; prefix matching is the '/'-boundary relation — proved also of prefixFilter.Filter as REGENERATED from git/ref_filter.go (checked index expression, short-circuit; never panics); @REFGROUP is group membership; the regenerated option table pairs --X/--no-X with the documented patterns. Correspondence: real RefGroupBuilder + pflag parsing + Finish + Categorize in-process vs model vs spec on generated configs x option sequences x reference sets. `Pins.Filter` (REGENERATED statements of git/ref_filter.go's ten combinator methods): `combine_shapes`, `evaluator_shapes`, `regexp_anchored_prefix_empty` — the filter algebra the model mirrors, and the `^(?:…)$` anchoring.",
     "level_note": "Trusted: Lean kernel; Go's regexp (full-match oracle computed independently of git-sizer); pflag's in-order Set calls (exercised, not modelled); model tied to internal/refopts and git/ref_filter.go by differential testing.",
     "technique": "Lean 4 proof (fold induction) + regenerated option table + differential correspondence",
-    "modules": ["GitSizer.Props.C06"],
+    "modules": ["GitSizer.Props.C06", "GitSizer.Props.Pins.Filter"],
     "engines": [{"name": "refs", "quick": 12000, "thorough": 1200000, "per_shard": 3000}],
     "rule": "refgroup configs (nesting, implicit parents, augmented built-ins, odd symbols) x option sequences of length 0-4 (prefixes cut anywhere, regexps with alternation/anchors/classes, @groups, boolean forms, deprecated spellings) x 3-10 reference names x with/without ROOT; one case in six exercises error branches; non-trivial = the configuration and options were accepted.",
     "assumptions": ["regular-expression semantics = Go regexp on ^(?:p)$"],
 }
 PROPS["C07"] = {
-    "level_text": "Theorems: collectSymbols returns exactly the declared membership (own rules and all ancestors' rules; rule-less group = union of subgroups; Other bucket iff no subgroup matched) for EVERY forest (mutual induction over the rose tree); untraversed references get only 'ignored'; Categorize = specification. Correspondence as for C06 plus Groups() order and names; rendering of deep hierarchies is checked by the output engine (C11/C19).",
+    "level_text": "Theorems: collectSymbols returns exactly the declared membership (own rules and all ancestors' rules; rule-less group = union of subgroups; Other bucket iff no subgroup matched) for EVERY forest (mutual induction over the rose tree); untraversed references get only 'ignored'; Categorize = specification. Correspondence as for C06 plus Groups() order and names; rendering of deep hierarchies is checked by the output engine (C11/C19). `Pins.Group` (REGENERATED statements of refGroup.collectSymbols): `collect_branches`, `pinned`.",
     "level_note": "Trusted: as C06. One recorded finding (F10: reserved symbol names).",
     "technique": "Lean 4 proof (mutual structural induction) + differential correspondence",
-    "modules": ["GitSizer.Props.C07"],
+    "modules": ["GitSizer.Props.C07", "GitSizer.Props.Pins.Group"],
     "engines": [{"name": "refs", "quick": 12000, "thorough": 1200000, "per_shard": 3000}, {"name": "output", "quick": 1200, "thorough": 120000, "per_shard": 200}],
     "rule": "same generator as C06; symbols compared as multisets per reference, Groups() exactly.",
     "assumptions": ["tallies are the per-symbol counts of the categoriser's output (recordReferenceGroup is a counter increment)"],
@@ -115,10 +115,10 @@ PROPS["C11"] = {
     "assumptions": ["float64 division and conversion are IEEE-754 round-to-nearest-even"],
 }
 PROPS["C19"] = {
-    "level_text": "Theorems: footnote numbering for every sequence of texts of arbitrary bytes (equal texts share a number, new text gets next number, list = distinct non-empty texts in first-citation order, no repetition); OID JSON token is quoted lowercase hex for any 20 bytes. Correspondence/judge: citations and footnote lines parsed back from the real table must be 1..k in first-citation order, all cited, distinct; JSON v1/v2 must be valid JSON with the expected key set for nasty names.",
+    "level_text": "Theorems: footnote numbering for every sequence of texts of arbitrary bytes (equal texts share a number, new text gets next number, list = distinct non-empty texts in first-citation order, no repetition); OID JSON token is quoted lowercase hex for any 20 bytes. Correspondence/judge: citations and footnote lines parsed back from the real table must be 1..k in first-citation order, all cited, distinct; JSON v1/v2 must be valid JSON with the expected key set for nasty names. `Pins.Footnote.dedup_by_text` (REGENERATED statements of Footnotes.CreateCitation): looked up and stored under the same key, new texts numbered len+1.",
     "level_note": "Trusted: encoding/json escaping (checked with json.Valid on every case, not proved). One recorded finding F13 (names unescaped in the table).",
     "technique": "Lean 4 proof (footnote numbering) + differential correspondence with table re-parsing",
-    "modules": ["GitSizer.Props.C19"],
+    "modules": ["GitSizer.Props.C19", "GitSizer.Props.Pins.Footnote"],
     "engines": [{"name": "output", "quick": 2400, "thorough": 120000, "per_shard": 200}, {"name": "parsers", "quick": 4000, "thorough": 400000, "per_shard": 20000},
                 {"name": "e2e", "quick": 160, "thorough": 8000, "per_shard": 10}],
     "rule": "as C11; one case in eight uses nasty names (newline, tab, quotes, backslash, '|', '[n]', non-UTF-8, over-long) for refgroup display names and witness descriptions; non-trivial = every case.",
@@ -126,10 +126,10 @@ PROPS["C19"] = {
 }
 
 PROPS["C18"] = {
-    "level_text": "Theorem over EVERY interleaving of Start/Inc/Done with ticks of live or stale ticker goroutines: phases in order, counts non-decreasing within a phase, nothing after a phase's final line, final line = number of Inc() calls of that phase. Observed histories of the real progressMeter (periods 1us-3ms, random delays) are validated as histories of the model; the end-to-end engine checks stdout is unchanged by --progress and the final counts equal the census. `one_inc_per_object` over the REGENERATED statement list of sizes.ScanRepositoryUsingGraph (six Start/loop/Done brackets, one Inc() per processed object in the same straight-line block, no continue, every return in a phase an error) ties #Inc of a phase to the number of objects processed.",
+    "level_text": "Theorem over EVERY interleaving of Start/Inc/Done with ticks of live or stale ticker goroutines: phases in order, counts non-decreasing within a phase, nothing after a phase's final line, final line = number of Inc() calls of that phase. Observed histories of the real progressMeter (periods 1us-3ms, random delays) are validated as histories of the model; the end-to-end engine checks stdout is unchanged by --progress and the final counts equal the census. `one_inc_per_object` over the REGENERATED statement list of sizes.ScanRepositoryUsingGraph (six Start/loop/Done brackets, one Inc() per processed object in the same straight-line block, no continue, every return in a phase an error) ties #Inc of a phase to the number of objects processed. `Pins.Meter.ticker_protocol` (REGENERATED statements of meter/meter.go): the ticker goroutine's identity test under the lock, Done's final print under the same lock.",
     "level_note": "Partial: the real timer, scheduler and Go memory model are not modelled (the model's atomic steps are the critical sections delimited by the mutex and the atomics); trace validation is sampling.",
     "technique": "Lean 4 proof (invariant over all interleavings) + trace validation against the real meter",
-    "modules": ["GitSizer.Props.C18"],
+    "modules": ["GitSizer.Props.C18", "GitSizer.Props.Pins.Meter"],
     "engines": [{"name": "meter", "quick": 480, "thorough": 24000, "per_shard": 30}, {"name": "rw", "quick": 96, "thorough": 4800, "per_shard": 6}],
     "rule": "scripts of 1-4 phases with 0-40 Inc() calls, ticker periods 1us/10us/100us/1ms/3ms, random spins and sleeps between calls; non-trivial = at least one tick line was observed besides the final lines.",
     "assumptions": ["each critical section of meter.go is atomic (sync.Mutex) and count is updated atomically"],
